@@ -311,6 +311,11 @@ def diffJacobianEqn (states : List String) (ode : List Expr) : List (List Expr) 
 def gradJacobianEqn (states params : List String) (ode : List Expr) : List (List Expr) :=
   params.flatMap (fun p => ode.map (fun f => states.map (fun sj => diff sj (diff p f))))
 
+/-- `get_grad_grad_eqn`: row `i*nP + j`, column `k` ↦ ∂/∂θ_k (∂f_i/∂θ_j)  (the three nested loops of the code:
+states' equations, parameters, parameters) -/
+def gradGradEqn (params : List String) (ode : List Expr) : List (List Expr) :=
+  ode.flatMap (fun f => params.map (fun pj => params.map (fun pk => diff pk (diff pj f))))
+
 def sumExprs (l : List Expr) : Expr := l.foldl Expr.add zero
 
 /-- `get_TransitionJacobian`: F[i][j] = Σ_k ∂a_i/∂x_k · V[k][j] -/
